@@ -79,6 +79,48 @@ def _shorter_than(n):
     return L
 
 
+def _regex_test(t, var):
+    """`re.search(P, var)` / `re.match` / `re.fullmatch`, also through
+    `re.compile(P)`: the language of the values with a match, or None.  The
+    pattern is wrapped (`[\x00-\xff]*` before / behind) rather than the
+    languages concatenated, so `^`, `$` and `\b` inside the pattern see the
+    true ends of the value."""
+    if not (isinstance(t, ast.Call) and isinstance(t.func, ast.Attribute)
+            and t.func.attr in ('match', 'search', 'fullmatch')
+            and not t.keywords):
+        return None
+    recv, args = t.func.value, t.args
+    if isinstance(recv, ast.Name) and recv.id == 're' and len(args) == 2:
+        pat, subj = args
+    elif isinstance(recv, ast.Call) and ast.unparse(recv.func) == \
+            're.compile' and len(recv.args) == 1 and not recv.keywords \
+            and len(args) == 1:
+        pat, subj = recv.args[0], args[0]
+    else:
+        return None
+    if not _is_var(subj, var) or not isinstance(pat, ast.Constant) or \
+            not isinstance(pat.value, (bytes, str)):
+        return None
+    p = pat.value
+    if isinstance(p, str):
+        try:
+            p = p.encode('ascii')
+        except UnicodeEncodeError:
+            return None
+    anyb = b'[\x00-\xff]*'
+    body = b'(?:' + p + b')'
+    if t.func.attr == 'match':
+        body = body + anyb
+    elif t.func.attr == 'search':
+        body = anyb + body + anyb
+    try:
+        return Lang.from_regex(body)
+    except AnalysisError as e:
+        raise NotAPredicate('regex outside the model: {}'.format(e))
+    except Exception as e:          # re.error etc.
+        raise NotAPredicate('regex not parsed: {}'.format(e))
+
+
 def pred_lang(t, var):
     """var may be one name or a set of names that all denote the same text"""
     if isinstance(var, (set, frozenset, list, tuple)):
@@ -111,6 +153,19 @@ def pred_lang(t, var):
     if _is_var(t, var):
         # truthiness: non-empty
         return Lang.literal(b'').complement()
+    rl = _regex_test(t, var)
+    if rl is not None:
+        return rl           # a match object is truthy
+    if isinstance(t, ast.Call) and isinstance(t.func, ast.Name) and \
+            t.func.id == 'bool' and len(t.args) == 1 and not t.keywords:
+        return pred_lang(t.args[0], var)
+    if isinstance(t, ast.Compare) and len(t.ops) == 1 and \
+            isinstance(t.ops[0], (ast.Is, ast.IsNot)) and \
+            isinstance(t.comparators[0], ast.Constant) and \
+            t.comparators[0].value is None:
+        rl = _regex_test(t.left, var)
+        if rl is not None:
+            return rl.complement() if isinstance(t.ops[0], ast.Is) else rl
     if isinstance(t, ast.Call) and ast.unparse(t.func) in (
             'os.path.isabs', 'posixpath.isabs') and len(t.args) == 1 and \
             _is_var(t.args[0], var):
